@@ -35,8 +35,12 @@ def drop(d):
     shutil.rmtree(d, ignore_errors=True)
 
 
-def build_and_test(d, run_tests):
-    r = sh('cmake -G Ninja -B %s/_b -S %s >/dev/null && cmake --build %s/_b 2>&1 | tail -3' % (d, d, d))
+def build_and_test(d, run_tests, cflags=None):
+    """default CMake build (what the test suite uses); cflags: rebuild the library with these C flags (changes that need an optimised build to manifest)"""
+    if cflags:
+        r = sh('rm -rf %s/_b && cmake -G Ninja -B %s/_b -S %s -DCMAKE_C_FLAGS="%s" >/dev/null && cmake --build %s/_b 2>&1 | tail -3' % (d, d, d, cflags, d))
+    else:
+        r = sh('rm -rf %s/_b && cmake -G Ninja -B %s/_b -S %s >/dev/null && cmake --build %s/_b 2>&1 | tail -3' % (d, d, d, d))
     if 'FAILED' in r.stdout or r.returncode:
         return False, r.stdout[-1500:]
     if run_tests:
@@ -58,12 +62,20 @@ def demo(d, demo_c):
 
 
 def verify(name, ddir):
+    """SEEDED_LIB_CFLAGS (e.g. "-O3 -DNDEBUG"): the change needs an optimised library to manifest - the test suite is still built and run with the
+    default flags, the demonstration is linked against a library rebuilt with these flags (unmodified: must pass; patched: must fail)"""
     patch, demo_c = os.path.join(ddir, 'patch.diff'), os.path.join(ddir, 'demo.c')
+    cflags = os.environ.get('SEEDED_LIB_CFLAGS')
     d = worktree(name + '-v')
     try:
         ok, out = build_and_test(d, False)
         rc0, o0 = demo(d, demo_c)
         print('unmodified: build ok=%s demo exit=%s %s' % (ok, rc0, o0.strip()[-200:]))
+        if cflags:
+            ok, out = build_and_test(d, False, cflags)
+            rc0b, o0b = demo(d, demo_c)
+            print('unmodified, library built with %s: build ok=%s demo exit=%s %s' % (cflags, ok, rc0b, o0b.strip()[-200:]))
+            rc0 = rc0 or rc0b
         r = sh(['git', '-C', d, 'apply', patch])
         if r.returncode:
             print('patch does not apply:', r.stdout); return 1
@@ -71,6 +83,10 @@ def verify(name, ddir):
         print('patched: build+tests ok=%s %s' % (ok, out.strip()[-160:]))
         rc1, o1 = demo(d, demo_c)
         print('patched: demo exit=%s %s' % (rc1, o1.strip()[-300:]))
+        if cflags:
+            ok2, out2 = build_and_test(d, False, cflags)
+            rc1, o1 = demo(d, demo_c)
+            print('patched, library built with %s: build ok=%s demo exit=%s %s' % (cflags, ok2, rc1, o1.strip()[-300:]))
         good = ok and rc0 == 0 and rc1 not in (0, None)
         print('CONFIRMED' if good else 'NOT CONFIRMED')
         return 0 if good else 1
@@ -82,6 +98,8 @@ def detect(name, patch, props):
     d = worktree(name + '-d')
     try:
         r = sh(['git', '-C', d, 'apply', patch])
+        if r.returncode:
+            r = sh(['git', '-C', d, 'apply', '-3', patch])    # a later fix in /repo touched neighbouring lines
         if r.returncode:
             print('patch does not apply:', r.stdout); return 2
         env = dict(os.environ, QLIBC_REPO=d, VF_EVIDENCE_DIR=os.path.join(BASE, 'evidence-' + name))
